@@ -284,3 +284,190 @@ func SizeCases(thorough bool) []SizeCase {
 	}
 	return out
 }
+
+// ---------------------------------------------------------------- second round: hash buckets, every size, shapes at sizes
+
+// BucketHeads is H₀ → a H₁ | b, H₁ → a H₂ | b, …, Hₙ₋₁ → a | b H₀ (n heads, two alternatives each; with unit set the first
+// alternative of every third head is the unit production Hᵢ → Hᵢ₊₁) over the given head names.
+func BucketHeads(names []string, unit bool) gx.G {
+	g := gx.G{Terms: []string{"a", "b"}, Start: gx.EncName(names[0])}
+	n := len(names)
+	for i, h := range names {
+		w := gx.EncName(h)
+		g.NonTerms = append(g.NonTerms, w)
+		if i+1 < n {
+			next := gx.EncName(names[i+1])
+			if unit && i%3 == 1 {
+				g.Prods = append(g.Prods, gx.P{Head: w, Body: []string{next}})
+			} else {
+				g.Prods = append(g.Prods, gx.P{Head: w, Body: []string{"a", next}})
+			}
+			g.Prods = append(g.Prods, gx.P{Head: w, Body: []string{"b"}})
+		} else {
+			g.Prods = append(g.Prods, gx.P{Head: w, Body: []string{"a"}}, gx.P{Head: w, Body: []string{"b", gx.EncName(names[0])}})
+		}
+	}
+	return g
+}
+
+// BucketCases: grammars whose production heads (the keys of the Productions table, hashed by grammar.HashNonTerminal) share
+// one probe path of the 31-slot quadratic-probing table the table starts from (17-24 heads; a path has 16 slots, so the table
+// must have grown before the 17th), resp. of the 31- and the 67-slot table (34-40 heads), and terminals that do the same for
+// the tables keyed by symbols.
+func BucketCases() []SizeCase {
+	var out []SizeCase
+	for _, n := range []int{16, 17, 20, 23, 24} {
+		names := gx.SameBucketNames("nonterm", "N", []int{31}, n)
+		out = append(out, SizeCase{Mix: fmt.Sprintf("bucket-31-heads-%d", n), G: Norm(BucketHeads(names, false)), Ops: allSeven})
+		out = append(out, SizeCase{Mix: fmt.Sprintf("bucket-31-heads-%d-units", n), G: Norm(BucketHeads(names, true)), Ops: allSeven})
+	}
+	for _, n := range []int{34, 40} {
+		names := gx.SameBucketNames("nonterm", "M", []int{31, 67}, n)
+		out = append(out, SizeCase{Mix: fmt.Sprintf("bucket-31-67-heads-%d", n), G: Norm(BucketHeads(names, n == 40)), Ops: allSeven})
+	}
+	for _, n := range []int{17, 23} {
+		// terminals that share a bucket as symbols (tables keyed by HashSymbol: FIRST by symbol, the symbols of a grammar)
+		ts := gx.SameBucketNames("symbol-term", "t", []int{31}, n)
+		g := gx.G{NonTerms: []string{"S", "A"}, Start: "S"}
+		for i, t := range ts {
+			w := gx.EncName(t)
+			g.Terms = append(g.Terms, w)
+			hd := "S"
+			if i%2 == 1 {
+				hd = "A"
+			}
+			g.Prods = append(g.Prods, gx.P{Head: hd, Body: []string{w, "A"}})
+		}
+		g.Prods = append(g.Prods, gx.P{Head: "A"}, gx.P{Head: "S", Body: []string{"A"}})
+		out = append(out, SizeCase{Mix: fmt.Sprintf("bucket-31-terminals-%d", n), G: Norm(g), Ops: allSeven})
+	}
+	return out
+}
+
+// UnitChainDown is UnitChain with the names against the order: U(n-1) is the start symbol and the unit productions run from
+// the alphabetically last non-terminal to the first (OrderNonTerminals, cmpProduction and the closure loop meet them in the
+// opposite order).
+func UnitChainDown(n int) gx.G {
+	u := func(i int) string { return fmt.Sprintf("U%03d", n-1-i) }
+	g := gx.G{Terms: []string{"a", "b"}, Start: u(0)}
+	for i := 0; i < n; i++ {
+		g.NonTerms = append(g.NonTerms, u(i))
+		if i+1 < n {
+			g.Prods = append(g.Prods, gx.P{Head: u(i), Body: []string{u(i + 1)}})
+		}
+	}
+	g.Prods = append(g.Prods, gx.P{Head: u(n - 1), Body: []string{"a"}}, gx.P{Head: u(n - 1), Body: []string{"b", u(0)}},
+		gx.P{Head: u(n / 2), Body: []string{"b"}})
+	return g
+}
+
+// LeftRecursionRing is R₀ → R₁ p | q, R₁ → R₂ p, …, Rₙ₋₁ → R₀ p | q: indirect left recursion through all n non-terminals, the
+// last of which closes the ring (the substitution walks the whole order).
+func LeftRecursionRing(n int) gx.G {
+	r := func(i int) string { return fmt.Sprintf("R%03d", i) }
+	g := gx.G{Terms: []string{"p", "q"}, Start: r(0)}
+	for i := 0; i < n; i++ {
+		g.NonTerms = append(g.NonTerms, r(i))
+		g.Prods = append(g.Prods, gx.P{Head: r(i), Body: []string{r((i + 1) % n), "p"}})
+	}
+	g.Prods = append(g.Prods, gx.P{Head: r(0), Body: []string{"q"}}, gx.P{Head: r(n - 1), Body: []string{"q"}})
+	return g
+}
+
+// PrintAlikeUnderOneHead: two bodies with the same numbers of non-terminals and terminals and the same rendering — [X, «Y Z»]
+// and [«X Y», Z] — that live under DIFFERENT heads of the input and come under one head in the result: through a unit chain
+// of n members (EliminateSingleProductions) and, differing by a nullable symbol inside a body of l symbols
+// (EliminateEmptyProductions).
+func PrintAlikeUnderOneHead(n, l int) gx.G {
+	xy, yz := gx.EncName("X Y"), gx.EncName("Y Z")
+	u := func(i int) string { return fmt.Sprintf("U%03d", i) }
+	g := gx.G{Terms: []string{"k", "n", "x", "y", "z"}, NonTerms: []string{"X", "Z", xy, yz, "N"}, Start: u(0)}
+	for i := 0; i < n; i++ {
+		g.NonTerms = append(g.NonTerms, u(i))
+		if i+1 < n {
+			g.Prods = append(g.Prods, gx.P{Head: u(i), Body: []string{u(i + 1)}})
+		}
+	}
+	pre := rep("k", l)
+	g.Prods = append(g.Prods,
+		gx.P{Head: u(0), Body: []string{xy, "Z"}}, gx.P{Head: u(n - 1), Body: []string{"X", yz}},
+		gx.P{Head: u(0), Body: append(append([]string{}, pre...), xy, "N", "Z")}, gx.P{Head: u(0), Body: append(append([]string{}, pre...), "X", "N", yz)},
+		gx.P{Head: "X", Body: []string{"x"}}, gx.P{Head: "Z", Body: []string{"z"}}, gx.P{Head: xy, Body: []string{"x", "y"}},
+		gx.P{Head: yz, Body: []string{"y", "y", "z"}}, gx.P{Head: "N", Body: []string{"n"}}, gx.P{Head: "N"})
+	return g
+}
+
+// ConcatNullable is S → k … k A B AB (l symbols before) with A, B and the separate non-terminal AB all nullable: the variants
+// [A B] and [AB] of the body are different strings that are WRITTEN alike (no separator) and hashed alike.
+func ConcatNullable(l int) gx.G {
+	g := gx.G{Terms: []string{"k", "a", "b", "c"}, NonTerms: []string{"S", "A", "B", "AB"}, Start: "S"}
+	g.Prods = []gx.P{{Head: "S", Body: append(rep("k", l), "A", "B", "AB")},
+		{Head: "A", Body: []string{"a"}}, {Head: "A"}, {Head: "B", Body: []string{"b"}}, {Head: "B"},
+		{Head: "AB", Body: []string{"c"}}, {Head: "AB"}}
+	return g
+}
+
+// ShapeCases: each transformation's special shapes at the sweep sizes (two dimensions at once).
+func ShapeCases(thorough bool) []SizeCase {
+	var out []SizeCase
+	add := func(mix string, g gx.G, no08, no09 bool, ops ...string) {
+		out = append(out, SizeCase{mix, Norm(g), ops, no08, no09})
+	}
+	// results whose grammars cannot depend on hash iteration: names with blanks only go to the transformations that do not sort
+	plain := []string{"emptyfree", "singlefree", "cycles", "unreachable"}
+	for _, t := range Thresholds(thorough) {
+		if t >= 1024 {
+			continue
+		}
+		big := t >= 128
+		for _, m := range []int{t - 1, t, t + 1} {
+			if m < 3 {
+				continue
+			}
+			add(fmt.Sprintf("shape-unit-chain-down-%d", t), UnitChainDown(m), big, big, "singlefree", "cycles", "leftrec", "cnf", "unreachable")
+			add(fmt.Sprintf("shape-lr-ring-%d", t), LeftRecursionRing(m), false, big, "leftrec", "cycles", "emptyfree", "leftfactor")
+			add(fmt.Sprintf("shape-print-alike-%d", t), PrintAlikeUnderOneHead(m, 2), big, big, plain...)
+			add(fmt.Sprintf("shape-print-alike-long-%d", t), PrintAlikeUnderOneHead(3, m), false, false, plain...)
+			add(fmt.Sprintf("shape-concat-nullable-%d", t), ConcatNullable(m), false, false, "emptyfree", "cycles", "leftrec", "singlefree")
+			add(fmt.Sprintf("shape-nullable-both-ends-%d", t), LongBodyNullable(m, []int{0, m - 1}, false), false, false, "emptyfree", "cycles", "leftrec", "leftfactor")
+			add(fmt.Sprintf("shape-nullable-both-ends-%d", t), LongBodyNullable(m, []int{0, 1, m - 2, m - 1}, true), false, false, "emptyfree", "cycles")
+		}
+	}
+	return out
+}
+
+// DenseCases: EVERY size from 0 to 200 of the cheap dimensions on the cheap transformations (thresholds such as 9, 24, 57-60,
+// 84 that come from the code and are no power of two).  Quick tier: every size with one transformation per family, the
+// choice rotating with the size and the seed; thorough: every transformation at every size.
+func DenseCases(seed uint64, thorough bool) []SizeCase {
+	var out []SizeCase
+	pick := func(n int, ops []string) []string {
+		if thorough {
+			return ops
+		}
+		return []string{ops[(n+int(seed%1000))%len(ops)]}
+	}
+	for n := 0; n <= 200; n++ {
+		if n >= 1 {
+			out = append(out, SizeCase{Mix: "dense-alternatives", G: Norm(ManyAlternatives(n)), Ops: pick(n, []string{"emptyfree", "singlefree", "unreachable", "leftfactor", "cycles", "cnf"})})
+			out = append(out, SizeCase{Mix: "dense-prefix-group", G: Norm(CommonPrefixAlternatives(n)), Ops: pick(n, []string{"leftfactor", "emptyfree", "unreachable", "singlefree"})})
+			out = append(out, SizeCase{Mix: "dense-unreachable", G: Norm(ManyUnreachable(n)), Ops: pick(n, []string{"unreachable", "emptyfree", "singlefree", "cycles"})})
+		}
+		if n >= 2 {
+			cl := clusters()[n%2]
+			out = append(out, SizeCase{Mix: "dense-chain-" + cl.name, G: Norm(ChainThen(n, cl.nts, cl.terms, cl.prods, false)),
+				Ops: pick(n, []string{"leftrec", "unreachable", "singlefree", "emptyfree", "cycles", "leftfactor"}),
+				// Lean's decision procedures for C09's post-conditions are cubic in the number of non-terminals
+				NoModel09: n > 96 && n%8 != 0})
+		}
+		if n >= 3 {
+			ops := []string{"emptyfree", "cycles", "leftfactor", "singlefree"}
+			if n <= 100 {
+				ops = append(ops, "cnfbin", "cnf")
+			}
+			out = append(out, SizeCase{Mix: "dense-body", G: Norm(LongBodyNullable(n, []int{n - 1}, false)), Ops: pick(n, ops)})
+			out = append(out, SizeCase{Mix: "dense-body", G: Norm(LongBodyNullable(n, []int{0, n / 2}, n%2 == 0)), Ops: pick(n+1, ops)})
+		}
+	}
+	return out
+}
